@@ -147,6 +147,47 @@ static void make_hostile_header(rng_t *r, hin_t *h, int ep) {
     switch (ep) {
     case EP_DICT:
     case EP_DICTINTO: {
+        if (rng_chance(r, 1, 2)) {
+            /* a well-formed dictionary with multi-byte indices whose count field is replaced by a value
+             * chosen so that count * indexWidth wraps to something that fits the remaining bytes */
+            size_t u = rng_chance(r, 1, 30) ? 65537 + rng_below(r, 50) : 257 + rng_below(r, 300);
+            size_t nv = u + rng_below(r, 40);
+            uint64_t *vals = malloc(nv * 8);
+            for (size_t i = 0; i < nv; i++) vals[i] = (i < u ? i : rng_below(r, u)) * 3 + 5;
+            free(h->b);
+            h->b = malloc(scratch_size(nv) + 64);
+            size_t full = varintDictEncode(h->b, vals, nv);
+            free(vals);
+            /* locate the count varint: [dictSize][entries...][count][indices] */
+            uint64_t ds, tmp;
+            size_t off = (size_t)ref_tagged_read(h->b, &ds);
+            for (uint64_t i = 0; i < ds; i++) off += (size_t)ref_tagged_read(h->b + off, &tmp);
+            size_t cl = (size_t)ref_tagged_read(h->b + off, &tmp);
+            size_t idxbytes = full - off - cl;
+            unsigned w = (unsigned)ref_bytes_needed(ds - 1);
+            /* count with count*w == m (mod 2^64), m <= idxbytes */
+            uint64_t m = idxbytes ? rng_below(r, idxbytes + 1) : 0;
+            uint64_t cnt = 0;
+            for (unsigned K = 1; K <= w; K++) {
+                __uint128_t t = ((__uint128_t)K << 64) + m;
+                if (t % w == 0 && (t / w) <= UINT64_MAX) {
+                    cnt = (uint64_t)(t / w);
+                    break;
+                }
+            }
+            if (!cnt) cnt = (1ULL << 63) + m / 2;
+            uint8_t cv[9];
+            size_t ncv = put_tagged(cv, cnt);
+            uint8_t *nb = malloc(full + 16);
+            memcpy(nb, h->b, off);
+            memcpy(nb + off, cv, ncv);
+            memcpy(nb + off + ncv, h->b + off + cl, idxbytes);
+            free(h->b);
+            h->b = nb;
+            n = off + ncv + idxbytes;
+            STAT_INC("c14_dict_wrapping_count_inputs");
+            break;
+        }
         uint64_t ds = rng_chance(r, 1, 2) ? rng_below(r, 5) : huge[rng_below(r, 11)];
         n += put_tagged(h->b + n, ds);
         size_t ne = ds < 5 ? (size_t)ds : rng_below(r, 4);
